@@ -365,7 +365,11 @@ class SimpleCorrelator(AbstractCorrelator):
                 if key in self._segment_status_store:
                     segment_status = self._segment_status_store[str(ref_num)]
                 else:
-                    segment_status = SegmentStatus({}, smpp_message)
+                    # All segments count as being sent until each one is answered or expires,
+                    # also those that were not sent yet
+                    segment_status = SegmentStatus(
+                        {str(num): STATUS_SENDING for num in range(1, total_segments + 1)}, smpp_message
+                    )
                     self._segment_status_store[key] = segment_status
                 segment_status.status[str(seq_num)] = STATUS_SENDING
 
